@@ -162,6 +162,8 @@ type tScreen struct {
 	cursorStyles map[CursorStyle]string
 	cursorStyle  CursorStyle
 	cursorColor  Color
+	cstyleSent   bool // a non-default cursor style was sent to the terminal
+	ccolorSent   bool // a cursor color was sent to the terminal
 	cursorRGB    string
 	cursorFg     string
 	saved        *term.State
@@ -984,14 +986,17 @@ func (t *tScreen) showCursor() {
 	if t.cursorStyles != nil {
 		if esc, ok := t.cursorStyles[t.cursorStyle]; ok {
 			t.TPuts(esc)
+			t.cstyleSent = t.cursorStyle != CursorStyleDefault
 		}
 	}
 	if t.cursorRGB != "" {
 		if t.cursorColor == ColorReset {
 			t.TPuts(t.cursorFg)
+			t.ccolorSent = false
 		} else if t.cursorColor.Valid() {
 			r, g, b := t.cursorColor.RGB()
 			t.TPuts(t.ti.TParm(t.cursorRGB, int(r), int(g), int(b)))
+			t.ccolorSent = true
 		}
 	}
 	t.cx = x
@@ -2113,11 +2118,16 @@ func (t *tScreen) disengage() {
 	ti := t.ti
 	t.cells.Resize(0, 0)
 	t.TPuts(ti.ShowCursor)
-	if t.cursorStyles != nil && t.cursorStyle != CursorStyleDefault {
+	// What matters is what the terminal was last told, not the current
+	// request: the application may have gone back to the default style or
+	// color without another Show.
+	if t.cursorStyles != nil && (t.cursorStyle != CursorStyleDefault || t.cstyleSent) {
 		t.TPuts(t.cursorStyles[CursorStyleDefault])
+		t.cstyleSent = false
 	}
-	if t.cursorFg != "" && t.cursorColor.Valid() {
+	if t.cursorFg != "" && (t.cursorColor.Valid() || t.ccolorSent) {
 		t.TPuts(t.cursorFg)
+		t.ccolorSent = false
 	}
 	t.TPuts(ti.ResetFgBg)
 	t.TPuts(ti.AttrOff)
